@@ -922,6 +922,8 @@ func samePrefix(free, got []Ev) bool {
 	return true
 }
 
+func withID(u UserSpec, id uint) UserSpec { u.ID = id; return u }
+
 func hasAssoc(u UserSpec) bool {
 	return u.Company != nil || u.Home != nil || u.Profile != nil || u.Badge != nil || len(u.Notes) > 0 || len(u.Pets) > 0 || len(u.Langs) > 0 || len(u.Toys) > 0
 }
@@ -1095,6 +1097,61 @@ func main() {
 		nops = a.N / 25
 		if nops < 1 {
 			nops = 1
+		}
+	}
+	// menu: every operation form x the options that change its path, on small fixed graphs, so
+	// that no form depends on the luck of the random stream
+	{
+		full := UserSpec{Name: "m", Age: 30, Company: &ToySpec{Name: "mc"}, Home: &ToySpec{Name: "mh"}, Profile: &ToySpec{Name: "mbio"},
+			Badge: &ToySpec{Name: "mb"}, Notes: []ToySpec{{Name: "mn"}},
+			Pets:  []PetSpec{{Name: "mp", Toys: []ToySpec{{Name: "mt"}}, Collar: &ToySpec{Name: "mk"}}},
+			Langs: []ToySpec{{ID: 1, Name: "go"}, {Name: "ml"}}, Toys: []ToySpec{{Name: "mut"}}}
+		small := UserSpec{Name: "s", Age: 20, Company: &ToySpec{Name: "sc"}, Pets: []PetSpec{{Name: "sp"}}}
+		seed := []UserSpec{{Name: "old", Age: 50, Company: &ToySpec{Name: "oc"}, Profile: &ToySpec{Name: "obio"}, Badge: &ToySpec{Name: "ob"},
+			Pets: []PetSpec{{Name: "op", Toys: []ToySpec{{Name: "ot"}}, Collar: &ToySpec{Name: "ok"}}}, Langs: []ToySpec{{Name: "go"}}, Notes: []ToySpec{{Name: "on"}}},
+			{Name: "old2", Age: 51}}
+		plain := UserSpec{Name: "r", Age: 33}
+		menu := []Op{
+			{Kind: "create", Users: []UserSpec{full}}, {Kind: "create", Users: []UserSpec{full}, NoRet: true},
+			{Kind: "create", Users: []UserSpec{full}, FullSave: true}, {Kind: "create", Users: []UserSpec{full}, Omit: []string{clause.Associations}},
+			{Kind: "create", Users: []UserSpec{full}, Sel: []string{"Name", "Pets"}}, {Kind: "create", Users: []UserSpec{full}, Omit: []string{"Company.Name"}},
+			{Kind: "create", Users: []UserSpec{{Name: "b", Buddy: "new"}}},
+			{Kind: "create_slice", Users: []UserSpec{small, full}, Share: true}, {Kind: "create_slice", Users: []UserSpec{small, full}, NoRet: true},
+			{Kind: "create_slice", Users: []UserSpec{small, small, full}, BatchSize: 2}, {Kind: "create_ptrs", Users: []UserSpec{small, full}},
+			{Kind: "create_batches", Users: []UserSpec{small, small, small}, Batch: 2}, {Kind: "create_batches_one", Users: []UserSpec{small}, Batch: 2},
+			{Kind: "create_map", Users: []UserSpec{plain}}, {Kind: "create_map", Users: []UserSpec{plain}, NoRet: true},
+			{Kind: "create_maps", Users: []UserSpec{plain, plain}}, {Kind: "create_maps", Users: []UserSpec{plain, plain}, NoRet: true},
+			{Kind: "create_pet", Target: 1, Pet: full.Pets[0]}, {Kind: "create_pet", Target: 1, Pet: PetSpec{Name: "dflt"}, NoRet: true},
+			{Kind: "save", Users: []UserSpec{withID(full, 1)}}, {Kind: "save", Users: []UserSpec{withID(full, 1)}, FullSave: true},
+			{Kind: "save", Users: []UserSpec{full}}, {Kind: "save", Users: []UserSpec{withID(plain, 44)}},
+			{Kind: "save_slice", Users: []UserSpec{withID(small, 1), small}}, {Kind: "save_slice", Users: []UserSpec{withID(small, 2), small}, NoRet: true},
+			{Kind: "updates", Target: 1, Users: []UserSpec{full}}, {Kind: "updates", Target: 1, Users: []UserSpec{full}, FullSave: true},
+			{Kind: "updates_map", Target: 1, Users: []UserSpec{plain}}, {Kind: "updates_map", Target: 1, Users: []UserSpec{plain}, Sel: []string{"name"}},
+			{Kind: "updates_map", Target: 1, Users: []UserSpec{plain}, Omit: []string{"age"}, Returning: true},
+			{Kind: "update_col", Target: 2, Users: []UserSpec{plain}}, {Kind: "update_columns", Target: 2, Users: []UserSpec{plain}},
+			{Kind: "updates_slice", Targets: []uint{1, 2}, Users: []UserSpec{plain}},
+			{Kind: "update_row", Table: "companies", Target: 1, Users: []UserSpec{plain}}, {Kind: "update_row", Table: "profiles", Target: 1, Users: []UserSpec{plain}},
+			{Kind: "update_row", Table: "badges", Target: 1, Users: []UserSpec{plain}},
+			{Kind: "delete", Users: []UserSpec{{ID: 1}}}, {Kind: "delete", Users: []UserSpec{{ID: 1}}, Select: []string{"*"}},
+			{Kind: "delete", Users: []UserSpec{{ID: 1}}, Select: []string{"Pets", "Badge", "Notes"}, Unscoped: true},
+			{Kind: "delete", Users: []UserSpec{{ID: 1}}, Select: []string{"Languages"}, Returning: true},
+			{Kind: "delete_where", Users: []UserSpec{{ID: 2}}}, {Kind: "delete_model", Users: []UserSpec{{ID: 1}}, Select: []string{"Profile"}},
+			{Kind: "delete_pet", Users: []UserSpec{{ID: 1}}, Select: []string{"*"}}, {Kind: "delete_pet", Users: []UserSpec{{ID: 1}}, Select: []string{"Toys", "Collar"}, Unscoped: true},
+			{Kind: "create_value", Users: []UserSpec{small}}, {Kind: "create", Users: []UserSpec{withID(small, 1)}},
+		}
+		for i, op := range menu {
+			if a.N > 0 && i >= a.N/25 {
+				break
+			}
+			in := Input{Seed: seed, Op: op, DFault: -1, HFault: -1}
+			if i%3 == 1 {
+				in.Pre = []string{[]string{"tosql", "skipdef", "dryrun", "prep"}[i%4]}
+			}
+			addOp("menu", in, -1, -1)
+		}
+		nops -= 40
+		if nops < 20 {
+			nops = 20
 		}
 	}
 	for i := 0; i < nops; i++ {
